@@ -411,6 +411,13 @@ def r7_emitted_key_encrypted(ctx):
 
 
 def run(ctx):
+    from ..report import Relabel
+    from .c10 import r4_prefix, r3_stateless
+
+    # every accepted chunker bound must yield a usable repository: the adapter's
+    # emit/remove discipline is what makes out-of-range cut values harmless
+    r4_prefix(Relabel(ctx, 'C17.R8'))
+    r3_stateless(Relabel(ctx, 'C17.R8'))
     r7_emitted_key_encrypted(ctx)
     r1_validate_before_upload(ctx)
     r2_parameters(ctx)
